@@ -78,7 +78,11 @@ def designspace_snapshot(ds):
         "instances": [(i.name, i.familyName, i.styleName, dict(i.location or {})) for i in ds.instances],
         "rules": [(r.name, _plain(r.conditionSets), list(r.subs)) for r in ds.rules],
         "lib": _plain(dict(ds.lib)),
-        "variableFonts": [v.name for v in getattr(ds, "variableFonts", [])],
+        "variableFonts": [(v.name, _plain(dict(v.lib or {})), [repr(a) for a in (v.axisSubsets or [])], v.filename)
+                          for v in getattr(ds, "variableFonts", [])],
+        "formatVersion": getattr(ds, "formatVersion", None),
+        "axisMappings": [repr(m) for m in getattr(ds, "axisMappings", [])],
+        "locationLabels": [repr(l) for l in getattr(ds, "locationLabels", [])],
     }
 
 
